@@ -68,7 +68,7 @@ ASSUMPTIONS = [
     "new type = source + requested changes; child_attrs_all reaches inherited fields through a "
     "customized parent; child_attrs for a not-yet-existing field is applied when the field is "
     "appended; append_field/insert_field reach the target and every class customized from it",
-    "bookkeeping state (_variants, _subclasses, parent_variant, translations, sqla_*) is not "
+    "bookkeeping state (_variants, _subclasses, parent_variant, translations) is not "
     "part of a snapshot; comparison is by value, so replacing a field type by an equal copy is "
     "not a change",
     "schema rendering assigns type names to customized primitives, therefore schemas are "
@@ -111,7 +111,7 @@ def _spyne():
 # --------------------------------------------------------------------------- snapshots
 EXCLUDED = frozenset([
     "nullable", "pa", "unicode_pattern", "upattern",          # aliases of other attributes
-    "translations", "sqla_column_args",                       # None -> empty normalisation
+    "translations",                                           # None -> empty normalisation
     "parent_variant", "methods",                              # bookkeeping
     "html_cloth", "html_root_cloth", "xml_cloth", "xml_root_cloth",
 ])
@@ -126,6 +126,9 @@ def raw_attrs(cls):
             continue
         out[k] = getattr(A, k)
     out["nillable"] = A.nillable
+    # the column arguments of the database mapping: None and ((), {}) are the same
+    sca = out.get("sqla_column_args")
+    out["sqla_column_args"] = ((), {}) if sca is None else (tuple(sca[0]), dict(sca[-1]))
     out["@doc"] = cls.Annotations.doc
     out["@appinfo"] = cls.Annotations.appinfo
     return out
@@ -447,9 +450,17 @@ class Machine(object):
     # -- predictions ----------------------------------------------------
     def apply_kw(self, node, attrs, kw, how="customize"):
         """attrs := attrs + the documented effect of the keyword arguments"""
+        # every derivation gets its own copy of the column arguments
+        sca = attrs.get("sqla_column_args") or ((), {})
+        attrs["sqla_column_args"] = (tuple(sca[0]), dict(sca[-1]))
         for k, v in kw.items():
             if k == "doc":
                 attrs["@doc"] = v
+            elif k == "pk":
+                attrs["primary_key"] = v
+                attrs["sqla_column_args"][-1]["primary_key"] = v
+            elif k in ("autoincrement", "onupdate", "server_default"):
+                attrs["sqla_column_args"][-1][k] = v
             elif k == "type_name":
                 pass
             elif k == "max_occurs" and v in ("unbounded", "inf"):
@@ -1338,6 +1349,11 @@ _generic = st.fixed_dictionaries({}, optional={
     "max_occurs": st.sampled_from([1, 2, 3, "unbounded"]),
     "sub_name": st.sampled_from(["s0", "s1", "s2"]),
     "doc": st.sampled_from(["d0", "d1"]),
+    # database-mapping keywords: kept in Attributes.sqla_column_args, one copy per type
+    "pk": st.booleans(),
+    "server_default": st.sampled_from(["0", "now()"]),
+    "autoincrement": st.booleans(),
+    "onupdate": st.sampled_from(["x"]),
 })
 _DTS = [dtm.datetime(y, 1, 1, tzinfo=UTC) for y in (2000, 2010, 2020)]
 _FAM_KW = {
